@@ -42,6 +42,7 @@ def main (args : List String) : IO UInt32 := do
   match args with
   | ["path"] => loopStateless stdin stdout Driver.Path.step; stdout.flush; return 0
   | ["sqlite"] => loopState stdin stdout ([] : Storage.Sqlite.Table String) Driver.Storage.stepSqliteR; stdout.flush; return 0
+  | ["sqliteconn"] => loopState stdin stdout Driver.Storage.connInit Driver.Storage.stepConn; stdout.flush; return 0
   | ["mockstorage"] => loopState stdin stdout ({ rows := [], cursor := 0 } : Storage.Mock.St String) Driver.Storage.stepMock; stdout.flush; return 0
   | ["runseq"] => loopStateless stdin stdout Driver.Runnable.stepRunSeq; stdout.flush; return 0
   | ["notify"] => loopStateless stdin stdout Driver.Runnable.stepNotify; stdout.flush; return 0
